@@ -105,6 +105,8 @@ def run(ctx, deep=False):
         "every run replayed block by block against the Lean model")
     for gen in (4, 5):
         items = _boundary_cases() + sockcheck.gen_scripts(ctx.seed * 41 + gen, [("faults", n), ("outage", n // 2)])
+        from props import c01
+        items = items + c01._full_buffer_requeue()          # a full buffer, a congested flush, a failing link: every command with retries left is kept
         good = sockcheck.judge_family(ctx, "C02", items, MONITORS, gen=gen, nontrivial=_nontrivial)
         sockcheck.validate_against_model(ctx, good, "AT%d" % gen)
     api_level(ctx, thorough)
